@@ -335,15 +335,38 @@ class _Canon(ast.NodeTransformer):
         if len(node.targets) == 1 and isinstance(node.targets[0], ast.Tuple) and isinstance(v, ast.Tuple) and len(v.elts) == len(node.targets[0].elts) >= 2 \
                 and not any(isinstance(x, ast.Starred) for x in list(v.elts) + list(node.targets[0].elts)):
             tg, vs = node.targets[0].elts, v.elts
-            ok = all(isinstance(t, ast.Name) for t in tg[:-1]) and (isinstance(tg[-1], ast.Name) or (isinstance(tg[-1], ast.Attribute) and self._chain(tg[-1])))
+            ok = all(isinstance(t, ast.Name) or (isinstance(t, ast.Attribute) and self._chain(t)) for t in tg)
             if ok:
                 for i, t in enumerate(tg[:-1]):
+                    base = t
+                    while isinstance(base, ast.Attribute):
+                        base = base.value
                     for later in vs[i + 1:]:
+                        # the later value must not be able to see the earlier store: it does not mention the local stored; of the
+                        # object whose attribute is stored it reads OTHER attributes at most (no callee receives the object itself,
+                        # as an argument or as the receiver of a method), and nothing is suspended
+                        fine = set()
+                        if isinstance(t, ast.Attribute):
+                            funcs = {id(c.func) for c in ast.walk(later) if isinstance(c, ast.Call)}
+                            for x in ast.walk(later):
+                                if isinstance(x, ast.Attribute) and isinstance(x.ctx, ast.Load) and isinstance(x.value, ast.Name) and x.value.id == base.id \
+                                        and id(x) not in funcs and not (t.value is not None and isinstance(t.value, ast.Name) and x.attr == t.attr):
+                                    fine.add(id(x.value))
                         for x in ast.walk(later):
-                            if (isinstance(x, ast.Name) and x.id == t.id) or isinstance(x, (ast.Call, ast.Await, ast.Yield, ast.YieldFrom, ast.NamedExpr, ast.Lambda)):
+                            if (isinstance(x, ast.Name) and x.id == base.id and id(x) not in fine) or isinstance(x, (ast.Await, ast.Yield, ast.YieldFrom, ast.NamedExpr, ast.Lambda)):
                                 ok = False
-            if ok and len({t.id for t in tg if isinstance(t, ast.Name)}) == sum(isinstance(t, ast.Name) for t in tg):
+            if ok and len({ast.dump(t) for t in tg}) == len(tg):
                 return [ast.copy_location(ast.Assign(targets=[t], value=val, type_comment=None), node) for t, val in zip(tg, vs)]
+            # otherwise through temporaries, which is what the tuple form does: every value first, then every store, in order
+            if all(isinstance(t, ast.Name) or (isinstance(t, ast.Attribute) and self._chain(t)) for t in tg):
+                _Canon._tup = getattr(_Canon, "_tup", 0) + 1
+                k = _Canon._tup
+                tmps = [f"_tup{k}_{i}" for i in range(len(tg))]
+                out = [ast.copy_location(ast.Assign(targets=[ast.Name(id=nm, ctx=ast.Store())], value=val, type_comment=None), val) for nm, val in zip(tmps, vs)]
+                out += [ast.copy_location(ast.Assign(targets=[t], value=ast.Name(id=nm, ctx=ast.Load()), type_comment=None), node) for nm, t in zip(tmps, tg)]
+                for st_ in out:
+                    ast.fix_missing_locations(st_)
+                return out
         # `self.buf[:0] = e` (prepend in place) -> `self.buf = e + self.buf` for an attribute chain: the same bytes for every
         # reader of the attribute (a bare local is left alone: there the two differ for an alias of the object)
         if len(node.targets) == 1 and isinstance(node.targets[0], ast.Subscript) and isinstance(node.targets[0].value, ast.Attribute) and self._chain(node.targets[0].value):
